@@ -51,8 +51,43 @@ func NewWS(spec UniverseSpec, cfg Config) (*Rig, error) {
 	if err := r.StartGateway(r.URLs); err != nil {
 		return r, err
 	}
+	if cfg.WriteGapUs > 0 {
+		r.Server = httptest.NewUnstartedServer(http.HandlerFunc(r.GW.Handler))
+		r.Server.Listener = gapListener{r.Server.Listener, time.Duration(cfg.WriteGapUs) * time.Microsecond}
+		r.Server.Start()
+		return r, nil
+	}
 	r.Server = httptest.NewServer(http.HandlerFunc(r.GW.Handler))
 	return r, nil
+}
+
+// gapListener hands out connections that pause after every short write.  gobwas/ws writes a
+// frame as header then payload; the pause widens the window between the two without altering
+// a byte, so a writer that does not take the gateway's per-connection lock lands inside a frame.
+type gapListener struct {
+	net.Listener
+	gap time.Duration
+}
+
+func (l gapListener) Accept() (net.Conn, error) {
+	c, err := l.Listener.Accept()
+	if err != nil {
+		return nil, err
+	}
+	return &gapConn{Conn: c, gap: l.gap}, nil
+}
+
+type gapConn struct {
+	net.Conn
+	gap time.Duration
+}
+
+func (c *gapConn) Write(b []byte) (int, error) {
+	n, err := c.Conn.Write(b)
+	if err == nil && len(b) <= 10 {
+		time.Sleep(c.gap)
+	}
+	return n, err
 }
 
 // CloseWS shuts the HTTP server and upstreams down.
